@@ -110,6 +110,7 @@ func (r *Report) runNative(samples []*pathSample, pkgOf map[string]string) (map[
 		}
 		os.Setenv("VERIF_REPLAY", f)
 		verifReset()
+		fmt.Printf("VERIF-REPLAY-BEGIN file=%s\n", filepath.Base(f))
 		out := verifReplayRun(doc.Harness, fn)
 		r, _ := json.Marshal(verifRT.Reached)
 		fmt.Printf("%s file=%s reached=%s\n", out, filepath.Base(f), r)
@@ -140,7 +141,15 @@ func (r *Report) runNative(samples []*pathSample, pkgOf map[string]string) (map[
 		if rel == "." {
 			target = "."
 		}
-		cmd := exec.Command("go", "test", "-v", "-vet=off", "-count=1", "-run", "^TestVerifReplay$", "-overlay", ovPath, target)
+		args := []string{"test", "-v", "-vet=off", "-count=1", "-run", "^TestVerifReplay$", "-overlay", ovPath}
+		for _, h := range r.w.harnesses {
+			if h.Pkg == pkg && h.Race {
+				args = append(args, "-race")
+				break
+			}
+		}
+		args = append(args, target)
+		cmd := exec.Command("go", args...)
 		cmd.Dir = r.w.repo
 		cmd.Env = append(os.Environ(), "GOFLAGS=-mod=mod", "GOPROXY=off", "VERIF_REPLAY_DIR="+sdir, "VERIF_TIER="+r.tier)
 		var buf bytes.Buffer
@@ -156,7 +165,15 @@ func (r *Report) runNative(samples []*pathSample, pkgOf map[string]string) (map[
 		}
 		text := buf.String()
 		found := 0
+		raceSeen := false
 		for _, line := range strings.Split(text, "\n") {
+			if strings.HasPrefix(line, "VERIF-REPLAY-BEGIN") {
+				raceSeen = false
+				continue
+			}
+			if strings.Contains(line, "WARNING: DATA RACE") {
+				raceSeen = true
+			}
 			if !strings.HasPrefix(line, "VERIF-REPLAY:") {
 				continue
 			}
@@ -182,6 +199,10 @@ func (r *Report) runNative(samples []*pathSample, pkgOf map[string]string) (map[
 				o.Kind = "reproduced-panic"
 			default:
 				o.Kind = "not-reproduced"
+			}
+			if raceSeen {
+				o.Kind = "reproduced-race"
+				o.Line += " [race detector: WARNING: DATA RACE]"
 			}
 			out[o.File] = o
 		}
@@ -261,6 +282,11 @@ func (r *Report) finish() int {
 				inconclusive = append(inconclusive, "validation sample without native outcome: "+s.file)
 				continue
 			}
+			if o.Kind == "reproduced-race" {
+				// a race on a validation sample is reported through its counterexample, not here
+				validated++
+				continue
+			}
 			if o.Kind == "not-reproduced" && !strings.Contains(o.Line, "assumption") && sameStrings(o.Reached, s.Reached) {
 				validated++
 			} else {
@@ -287,6 +313,9 @@ func (r *Report) finish() int {
 						if id == ce.Obligation {
 							reproduced = true
 						}
+					}
+					if strings.HasPrefix(ce.Msg, "data race") && o.Kind == "reproduced-race" {
+						reproduced = true
 					}
 				case "panic":
 					reproduced = o.Kind == "reproduced-panic"
